@@ -63,7 +63,7 @@ Init ==
 (* packet it has processed.  Receiver method A (deliver on PUBLISH) or B     *)
 (* (store, deliver on PUBREL) according to the scenario.                     *)
 (***************************************************************************)
-Processed(o) == o \in {"ok", "cutAfter", "dropAck"}
+Processed(o) == o \in {"ok", "cutAfter", "dropAck", "lateAck"}
 
 RECURSIVE SubAll(_, _, _)
 SubAll(m, fs, qs) ==
@@ -145,7 +145,7 @@ WriteStep ==
   LET ev == Ev IN
   /\ ev.g \in 1..Len(conns)
   /\ (ev.o = "closed") <=> ~conns[ev.g].open
-  /\ ev.ok <=> (ev.o \in {"ok", "cutAfter", "dropReq", "dropAck"})
+  /\ ev.ok <=> (ev.o \in {"ok", "cutAfter", "dropReq", "dropAck", "lateAck"})
   /\ wire' = Append(wire, ev)
   /\ IF ev.o = "closed"
      THEN /\ ev.deliv = << >> /\ ev.resp = "" /\ UNCHANGED <<ever, bsubs, binfl, bstored, delivered>>
